@@ -223,8 +223,14 @@ impl<F: FixedChannelRegion> RegionHandler for FixedChannelPlan<F> {
                 // or ChannelMask in the LinkADRReq in Data Frame.
                 // If it has not been reset yet, we continue to use the bias for the data frames.
                 // We hope to acquire ChannelMask via LinkADRReq.
-                if self.join_channels.has_bias_and_not_exhausted() {
+                let biased = if self.join_channels.has_bias_and_not_exhausted() {
                     let channel = self.join_channels.get_next_channel(rng);
+                    // ...but only while the channel mask still allows that channel.
+                    self.channel_mask.is_enabled(channel.into()).unwrap().then_some(channel)
+                } else {
+                    None
+                };
+                if let Some(channel) = biased {
                     let dr = if channel < 64 {
                         DR::_0
                     } else {
@@ -233,7 +239,15 @@ impl<F: FixedChannelRegion> RegionHandler for FixedChannelPlan<F> {
                     (dr, channel)
                 // Alternatively, we will ask JoinChannel logic to determine a channel from the
                 // subband that  the join succeeded on.
-                } else if let Some(channel) = self.join_channels.first_data_channel(rng) {
+                } else if let Some(channel) =
+                    self.join_channels.first_data_channel(rng).filter(|&channel| {
+                        // The channel on the join subband is a 125 kHz one: it only suits
+                        // 125 kHz data rates, and only while the channel mask allows it.
+                        F::datarates()[datarate as usize].as_ref().unwrap().bandwidth
+                            != Bandwidth::_500KHz
+                            && self.channel_mask.is_enabled(channel.into()).unwrap()
+                    })
+                {
                     (datarate, channel)
                 } else {
                     // For the data frame, the datarate impacts which channel sets we can choose
